@@ -38,7 +38,7 @@ SIM_CFGS = {
     'quick': [('BertE.sim.cfg', 16, 30), ('BertE.simsk.cfg', 12, 30), ('BertE.simnq.cfg', 8, 24),
               ('BertE.sims.cfg', 12, 30), ('BertE.simf.cfg', 12, 45), ('BertE.simh.cfg', 10, 30), ('BertE.simr.cfg', 12, 36), ('BertE.sima.cfg', 12, 36)],
     'thorough': [('BertE.sim.cfg', 400, 40), ('BertE.simsk.cfg', 300, 40), ('BertE.simnq.cfg', 150, 30),
-                 ('BertE.sims.cfg', 300, 40), ('BertE.simf.cfg', 300, 60), ('BertE.simsa.cfg', 200, 40), ('BertE.simh.cfg', 300, 40), ('BertE.simr.cfg', 400, 45), ('BertE.sima.cfg', 400, 45)],
+                 ('BertE.sims.cfg', 300, 40), ('BertE.simf.cfg', 300, 60), ('BertE.simsa.cfg', 200, 40), ('BertE.simh.cfg', 300, 40), ('BertE.simr.cfg', 400, 45), ('BertE.sima.cfg', 400, 45), ('BertE.simm.cfg', 200, 40), ('BertE.simam.cfg', 200, 40)],
 }
 
 
